@@ -196,6 +196,9 @@ func (ps *pushSim) RoundTrip(req *http.Request) (*http.Response, error) {
 	if minLease <= 0 {
 		minLease = 10 * time.Second
 	}
+	if mb := ps.sub.Cfg.MaxB; mb > 0 && mb < minLease {
+		minLease = mb // a maximum backoff below the minimum caps every lease
+	}
 	relaxed := ps.stalled || t1.Sub(p.arrived) >= minLease
 	if relaxed && !ps.stalled {
 		r.Stats["push_slow_request_relaxed"]++
